@@ -1,6 +1,6 @@
 (** C04 — non-vacuity examples and the refutation witness (all by computation on closed terms). *)
 From Coq Require Import List NArith ZArith Bool.
-From SK Require Import lib.Tok lib.LGraph model.C03_Model model.C04_Model proof.C04_Glue proof.C04_Template proof.C04_Any proof.C04_Check proof.C04_Proof.
+From SK Require Import lib.Tok lib.LGraph model.C03_Model model.C04_Model proof.C04_Glue proof.C04_Template proof.C04_Any proof.C04_Check proof.C04_Proof proof.C04_DefaultProof.
 Import ListNotations.
 Local Open Scope Z_scope.
 
@@ -113,4 +113,23 @@ Example s_swapped_match_regenerates :
   aut_map (template true false sG sH) swap12 = [(1%N, 2%N); (2%N, 1%N)] /\
   match glue (substrate false sG sH) (template true false sG sH) [(1%N, 2%N); (2%N, 1%N)] with
   | Some T => regen_exact T sG sH | None => false end = true.
+Proof. vm_compute. split; reflexivity. Qed.
+
+(** non-vacuity of C04_identity_glue_default: bromoethane + water with the one migrating hydrogen explicit,
+    [CH3:1][CH2:2][Br:3].[OH:4][H:7]>>[CH3:1][CH2:2][OH:4].[Br:3][H:7], satisfies its hypotheses for the centre and
+    the full ITS, forwards and backwards *)
+Definition dG : hostg :=
+  LG [(1%N, NA 67%N false 3 0 []); (2%N, NA 67%N false 2 0 []); (3%N, NA 17010%N false 0 0 []); (4%N, NA 79%N false 1 0 []); (7%N, NA 72%N false 0 0 [])]
+     [(1%N, 2%N, 2); (2%N, 3%N, 2); (4%N, 7%N, 2)].
+Definition dH : hostg :=
+  LG [(1%N, NA 67%N false 3 0 []); (2%N, NA 67%N false 2 0 []); (4%N, NA 79%N false 1 0 []); (3%N, NA 17010%N false 0 0 []); (7%N, NA 72%N false 0 0 [])]
+     [(1%N, 2%N, 2); (2%N, 4%N, 2); (3%N, 7%N, 2)].
+Example d_default_hyps :
+  pair_wfb dG dH = true /\ mode_E dG dH = true /\ centre_carries (its_construct dG dH) = true /\
+  default_okb dG dH (template true false dG dH) = true /\ default_okb dG dH (template false false dG dH) = true /\
+  default_okb dH dG (template true true dG dH) = true /\ default_okb dH dG (template false true dG dH) = true.
+Proof. vm_compute. repeat split; reflexivity. Qed.
+(** with spectator hydrogens written explicitly (eG / eH above) the centre template is outside [default_okb] (they are not
+    in the centre), the full ITS is inside *)
+Example e_default_scope : default_okb eG eH (template true false eG eH) = false /\ default_okb eG eH (template false false eG eH) = true.
 Proof. vm_compute. split; reflexivity. Qed.
